@@ -1,2 +1,169 @@
-(** C13 - theorems under construction. *)
-From Coq Require Import ZArith.
+(** C13 - stack and heap vectors behave like a length-bounded sequence.
+    Statements only (closed by [exact]); proofs in proofs/RawVecFacts.v.  model/RawVec.v is the
+    cell-level model of src/stackvec.rs (62 [option Z] cells + u16 length; unchecked operations
+    return [UB] outside their side condition); the reference sequence is the list-level model of
+    model/Vec.v + model/Bigint.v.  [raw_step_total]/[history_refines] : every history over the safe
+    API, from [new], never reaches UB, keeps the invariant (length <= capacity, prefix initialised)
+    and yields the outputs and visible contents of the reference run, for both build modes. *)
+
+From Coq Require Import ZArith List Bool.
+From ML Require Import base.RustSem model.Fmt model.Vec model.Bigint model.RawVec gen.Consts proofs.LimbVal proofs.RawVecFacts.
+Import ListNotations.
+
+Open Scope Z_scope.
+
+Theorem C13_L62_ok :
+  limits_ok L62.
+Proof. exact L62_ok. Qed.
+
+Theorem C13_len_le_cap :
+  forall (L : limits) (r : raw),
+         Inv L r -> 0 <= rlen r <= cap L /\ rlen r = zlen (abs r) /\ zlen (cells r) = cap L.
+Proof. exact len_le_cap. Qed.
+
+Theorem C13_raw_step_refines :
+  forall (L : limits) (b : build),
+         limits_ok L ->
+         forall (r : raw) (o : vop),
+         Inv L r ->
+         op_ok o ->
+         ~ set_oob (abs r) o ->
+         exists (r' : raw) (out : vout),
+           raw_step L b r o = Ok (r', out) /\ Inv L r' /\ spec_step L (abs r) o = Ok (abs r', out).
+Proof. exact raw_step_refines. Qed.
+
+Theorem C13_raw_step_set_oob :
+  forall (L : limits) (b : build) (r : raw) (i x : Z),
+         Inv L r ->
+         ~ 0 <= i < rlen r ->
+         raw_step L b r (OpSet i x) = Panic PkIndex /\ spec_step L (abs r) (OpSet i x) = Panic PkIndex.
+Proof. exact raw_step_set_oob. Qed.
+
+Theorem C13_raw_step_total :
+  forall (L : limits) (b : build),
+         limits_ok L ->
+         forall (r : raw) (o : vop),
+         Inv L r ->
+         op_ok o ->
+         match spec_step L (abs r) o with
+         | Ok (l', out) => exists r' : raw, raw_step L b r o = Ok (r', out) /\ Inv L r' /\ abs r' = l'
+         | Panic k => raw_step L b r o = Panic k /\ k = PkIndex /\ set_oob (abs r) o
+         | UB _ => False
+         end.
+Proof. exact raw_step_total. Qed.
+
+Theorem C13_failed_op_unchanged :
+  forall (L : limits) (b : build),
+         limits_ok L ->
+         forall (r : raw) (o : vop) (r' : raw),
+         Inv L r ->
+         op_ok o ->
+         (exists x : Z, o = OpPush x) \/
+         (exists s : list Z, o = OpExtend s) \/ (exists len x : Z, o = OpResize len x) ->
+         raw_step L b r o = Ok (r', OutFlag false) ->
+         r' = r /\
+         abs r' = abs r /\
+         match o with
+         | OpPush _ => BIGINT_LIMBS L < zlen (abs r) + 1
+         | OpExtend s => BIGINT_LIMBS L < zlen (abs r) + zlen s
+         | OpResize len _ => BIGINT_LIMBS L < len
+         | _ => True
+         end.
+Proof. exact failed_op_unchanged. Qed.
+
+Theorem C13_history_from :
+  forall (L : limits) (b : build),
+         limits_ok L ->
+         forall (ops : list vop) (r : raw),
+         Inv L r ->
+         Forall op_ok ops ->
+         match spec_run_from L (abs r) ops with
+         | Ok (l', outs) => exists r' : raw, raw_run_from L b r ops = Ok (r', outs) /\ Inv L r' /\ abs r' = l'
+         | Panic k => raw_run_from L b r ops = Panic k /\ k = PkIndex
+         | UB _ => False
+         end.
+Proof. exact history_from. Qed.
+
+Theorem C13_history_refines :
+  forall (L : limits) (b : build),
+         limits_ok L ->
+         forall ops : list vop,
+         Forall op_ok ops ->
+         match spec_run L ops with
+         | Ok (l', outs) => exists r' : raw, raw_run L b ops = Ok (r', outs) /\ Inv L r' /\ abs r' = l'
+         | Panic k => raw_run L b ops = Panic k /\ k = PkIndex
+         | UB _ => False
+         end.
+Proof. exact history_refines. Qed.
+
+Theorem C13_history_no_ub :
+  forall (L : limits) (b : build),
+         limits_ok L -> forall ops : list vop, Forall op_ok ops -> is_ub (raw_run L b ops) = false.
+Proof. exact history_no_ub. Qed.
+
+Theorem C13_history_prefix :
+  forall (L : limits) (b : build),
+         limits_ok L ->
+         forall (p q : list vop) (r' : raw) (outs : list vout),
+         Forall op_ok (p ++ q) ->
+         raw_run L b (p ++ q) = Ok (r', outs) ->
+         exists (r1 : raw) (outs1 : list vout),
+           raw_run L b p = Ok (r1, outs1) /\
+           Inv L r1 /\ 0 <= rlen r1 <= cap L /\ spec_run L p = Ok (abs r1, outs1).
+Proof. exact history_prefix. Qed.
+
+Theorem C13_eq_spec :
+  forall (L : limits) (b : build),
+         limits_ok L ->
+         forall (r : raw) (s : list Z),
+         Inv L r ->
+         limbs_ok s ->
+         zlen s <= BIGINT_LIMBS L ->
+         Bigint.is_normalized (abs r) = true ->
+         Bigint.is_normalized s = true ->
+         raw_step L b r (OpEq s) = Ok (r, OutBool (lval (abs r) =? lval s)) /\
+         spec_step L (abs r) (OpEq s) = Ok (abs r, OutBool (lval (abs r) =? lval s)).
+Proof. exact eq_spec. Qed.
+
+Theorem C13_cmp_spec :
+  forall (L : limits) (b : build),
+         limits_ok L ->
+         forall (r : raw) (s : list Z),
+         Inv L r ->
+         limbs_ok s ->
+         zlen s <= BIGINT_LIMBS L ->
+         Bigint.is_normalized (abs r) = true ->
+         Bigint.is_normalized s = true ->
+         raw_step L b r (OpCmp s) = Ok (r, OutCmp (lval (abs r) ?= lval s)) /\
+         spec_step L (abs r) (OpCmp s) = Ok (abs r, OutCmp (vcompare (abs r) s)) /\
+         vcompare (abs r) s = (lval (abs r) ?= lval s).
+Proof. exact cmp_spec. Qed.
+
+Theorem C13_shl_limbs_refines :
+  forall (L : limits) (b : build),
+         limits_ok L ->
+         forall (r : raw) (n : Z),
+         Inv L r ->
+         0 <= n < 2 ^ 32 ->
+         match Bigint.shl_limbs b (ref_vec L (abs r)) n with
+         | Ok (Some v) => exists r' : raw, shl_limbs L b r n = Ok (r', true) /\ Inv L r' /\ abs r' = vl v
+         | Ok None => shl_limbs L b r n = Ok (r, false)
+         | Panic k => shl_limbs L b r n = Panic k
+         | UB _ => False
+         end.
+Proof. exact shl_limbs_refines. Qed.
+
+
+Print Assumptions C13_L62_ok.
+Print Assumptions C13_len_le_cap.
+Print Assumptions C13_raw_step_refines.
+Print Assumptions C13_raw_step_set_oob.
+Print Assumptions C13_raw_step_total.
+Print Assumptions C13_failed_op_unchanged.
+Print Assumptions C13_history_from.
+Print Assumptions C13_history_refines.
+Print Assumptions C13_history_no_ub.
+Print Assumptions C13_history_prefix.
+Print Assumptions C13_eq_spec.
+Print Assumptions C13_cmp_spec.
+Print Assumptions C13_shl_limbs_refines.
